@@ -1,6 +1,7 @@
 package inactivity
 
 import (
+	"time"
 	"unsafe"
 
 	"go.uber.org/atomic"
@@ -60,4 +61,24 @@ func (m *KeepAlive[C]) incrementFails() uint32 {
 
 func (m *KeepAlive[C]) resetFails() {
 	m.numFails.Store(0)
+}
+
+// KeepAliveMonitor is an inactivity monitor driving a KeepAlive: every idle interval triggers
+// KeepAlive.OnInactive, and any message received from the peer - not only an answered ping -
+// proves that the peer is alive and resets the count of unanswered pings.
+type KeepAliveMonitor[C Conn] struct {
+	*Monitor[C]
+	keepAlive *KeepAlive[C]
+}
+
+func NewKeepAliveMonitor[C Conn](interval time.Duration, keepAlive *KeepAlive[C]) *KeepAliveMonitor[C] {
+	return &KeepAliveMonitor[C]{
+		Monitor:   New(interval, keepAlive.OnInactive),
+		keepAlive: keepAlive,
+	}
+}
+
+func (m *KeepAliveMonitor[C]) Notify() {
+	m.keepAlive.resetFails()
+	m.Monitor.Notify()
 }
